@@ -36,6 +36,7 @@ LEAVES = [
 #            function's `match scrutinee { .. }`
 PARTS = [
     ("src/collections/raw_vec.rs", "cap"),
+    ("src/collections/raw_vec.rs", "current_layout"),
     ("cond", "src/collections/raw_vec.rs", "fallible_reserve_internal", "fallible_reserve_has_room"),
     ("cond", "src/collections/raw_vec.rs", "infallible_reserve_internal", "infallible_reserve_has_room"),
     ("arm", "src/collections/raw_vec.rs", "reserve_internal", "strategy", "Exact", "reserve_new_cap_exact"),
@@ -113,6 +114,11 @@ EXPRS += [
     ("expr", "src/lib.rs", "try_alloc_try_with", ("if", 2), "tatw_same_chunk", ("inner_result_ptr", "rewind_footer", "rewind_ptr")),
     ("expr", "src/lib.rs", "try_alloc_try_with", ("arg", "set_ptr", 1, 0), "tatw_rewind_same_chunk", ("inner_result_ptr", "rewind_footer", "rewind_ptr")),
     ("expr", "src/lib.rs", "try_alloc_try_with", ("arg", "set", 1, 0), "tatw_rewind_new_chunk", ("inner_result_ptr", "rewind_footer", "rewind_ptr")),
+    # Alloc::realloc for &Bump (RawVec's route into the arena): the zero-size shortcut, the new layout
+    # and the shrink/grow dispatch
+    ("expr", "src/lib.rs", "impl:Alloc for &'a Bump:realloc", ("if", 1), "realloc_old_is_empty"),
+    ("expr", "src/lib.rs", "impl:Alloc for &'a Bump:realloc", ("let", "new_layout", 1), "realloc_new_layout"),
+    ("expr", "src/lib.rs", "impl:Alloc for &'a Bump:realloc", ("if", 2), "realloc_shrinks"),
     ("expr", "src/collections/vec.rs", "insert", ("assert", 1), "vec_insert_index_ok"),
     ("expr", "src/collections/vec.rs", "insert", ("if", 1), "vec_insert_must_grow"),
     ("expr", "src/collections/vec.rs", "insert", ("arg", "copy", 1, 0), "vec_insert_copy_src"),
@@ -266,6 +272,17 @@ FRAMES = [
      "pubfndowncast<T:Any>(self)->Result<Box<'a,T>,Box<'a,dynAny>>{ifself.is::<T>(){unsafe{letraw:*mutdynAny=Box::into_raw(self);Ok(Box::from_raw(rawas*mutT))}}else{Err(self)}}"),
     ("src/boxed.rs", "*", "box_downcast_any_send",
      "pubfndowncast<T:Any>(self)->Result<Box<'a,T>,Box<'a,dynAny+Send>>{ifself.is::<T>(){unsafe{letraw:*mut(dynAny+Send)=Box::into_raw(self);Ok(Box::from_raw(rawas*mutT))}}else{Err(self)}}"),
+    # RawVec: the whole current buffer is what is handed to realloc / dealloc, and the new pointer and
+    # capacity are stored together
+    ("src/collections/raw_vec.rs", "reserve_internal", "rawvec_realloc_whole_buffer",
+     "letres=matchself.current_layout(){Some(layout)=>{debug_assert!(new_layout.align()==layout.align());self.a.realloc(self.ptr.cast(),layout,new_layout.size())}None=>Alloc::alloc(&mutself.a,new_layout),};"),
+    ("src/collections/raw_vec.rs", "reserve_internal", "rawvec_stores_ptr_and_cap", "self.ptr=res?.cast();self.cap=new_cap;Ok(())"),
+    ("src/collections/raw_vec.rs", "reserve_internal", "rawvec_new_layout_is_array_of_new_cap",
+     "letnew_layout=Layout::array::<T>(new_cap).map_err(|_|CapacityOverflow)?;alloc_guard(new_layout.size())?;"),
+    ("src/collections/raw_vec.rs", "dealloc_buffer", "rawvec_dealloc_whole_buffer",
+     "ifelem_size!=0{ifletSome(layout)=self.current_layout(){self.a.dealloc(self.ptr.cast(),layout);}}"),
+    ("src/lib.rs", "impl:Alloc for &'a Bump:realloc", "realloc_dispatch",
+     "ifold_size==0{returnself.try_alloc_layout(layout);}letnew_layout=layout_from_size_align(new_size,layout.align())?;ifnew_size<=old_size{self.shrink(ptr,layout,new_layout)}else{self.grow(ptr,layout,new_layout)}"),
     # Vec: what surrounds the located expressions of insert / remove
     ("src/collections/vec.rs", "impl:Drop for Drain:drop", "vec_drain_drop_exhausts_first", "{self.for_each(drop);ifself.tail_len>0{"),
     ("src/collections/vec.rs", "impl:Drop for Drain:drop", "vec_drain_drop_moves",
